@@ -241,6 +241,10 @@ func MutationMatrix(s *Script, full bool) {
 			return web3.NewTrxVoting(kr.Addr(3), types.ZeroAddress(), s.nonce(3), s.gas(), s.price(), kr.HashOf(props[0]), 0)
 		}},
 		{"transfer", 4, func() *rctypes.Trx { return s.TxTransfer(4, 2, "2e18") }},
+		// other values of the version field (no rule speaks about it; it is signed like every field)
+		{"transfer-v0", 4, func() *rctypes.Trx { tx := s.TxTransfer(4, 2, "1e18"); tx.Version = 0; return tx }},
+		{"transfer-v2", 4, func() *rctypes.Trx { tx := s.TxTransfer(4, 2, "1e18"); tx.Version = 2; return tx }},
+		{"staking-v0", 4, func() *rctypes.Trx { tx := s.TxStake(4, 2, "1e18"); tx.Version = 0; return tx }},
 		{"staking", 4, func() *rctypes.Trx { return s.TxStake(4, 2, "2e18") }},
 		{"unstaking", 4, func() *rctypes.Trx { return s.TxUnstake(4, 1, s.StakeIDs(4, 1)[0]) }},
 		{"withdraw", 1, func() *rctypes.Trx {
